@@ -190,7 +190,7 @@ func post_NotifyUnsubscribe(s *Service, sub message.Subscriber, ev *event.Subscr
 
 // The bookkeeping answer a subscribe / unsubscribe rests on is exactly Counters.IncrementOnce / Decrement (proved
 // against the abstract filter->count map under C02) on THIS connection's counters, asked once.
-// @ verify (*Conn).CanSubscribe pre=pre_Conn_subs post=post_Conn_CanSubscribe props=C02,C08
+//@ verify (*Conn).CanSubscribe pre=pre_Conn_subs post=post_Conn_CanSubscribe props=C02,C08,C18
 func pre_Conn_subs(c *Conn) bool { return c != nil && c.subs != nil }
 func post_Conn_CanSubscribe(c *Conn, ssid message.Ssid, channel []byte, res0 bool) bool {
 	i := vs.TraceFind("IncrementOnce")
@@ -198,7 +198,7 @@ func post_Conn_CanSubscribe(c *Conn, ssid message.Ssid, channel []byte, res0 boo
 		specSameWords(vs.TraceArg[message.Ssid](i, 1), ssid) && vs.SameBytes(vs.TraceArg[[]byte](i, 2), channel)
 }
 
-// @ verify (*Conn).CanUnsubscribe pre=pre_Conn_subs post=post_Conn_CanUnsubscribe props=C02,C08
+//@ verify (*Conn).CanUnsubscribe pre=pre_Conn_subs post=post_Conn_CanUnsubscribe props=C02,C08,C18
 func post_Conn_CanUnsubscribe(c *Conn, ssid message.Ssid, res0 bool) bool {
 	i := vs.TraceFind("Decrement")
 	return i >= 0 && vs.TraceLen() == 1 && vs.TraceArg[*message.Counters](i, 0) == c.subs && res0 == vs.TraceRet[bool](i, 0) &&
